@@ -369,6 +369,28 @@ func (r *fileRewriter) rewrite(used map[string]map[string]bool, stats map[string
 	}
 	r.pre, r.post = pre, post
 	astutil.Apply(f, pre, post)
+	// Targeted widening: service.(*TCPRelay).handleConn takes netio.Conn instead of
+	// *net.TCPConn (its body only uses netio.Conn methods), so that a harness can
+	// hand the real function an in-memory connection.
+	if r.relPkg == "service" {
+		for _, d := range f.Decls {
+			fd, ok := d.(*ast.FuncDecl)
+			if !ok || fd.Name.Name != "handleConn" || fd.Recv == nil {
+				continue
+			}
+			for _, p := range fd.Type.Params.List {
+				if st, ok := p.Type.(*ast.StarExpr); ok {
+					if se, ok := st.X.(*ast.SelectorExpr); ok && se.Sel.Name == "TCPConn" {
+						if id, ok := se.X.(*ast.Ident); ok && id.Name == "net" {
+							p.Type = &ast.SelectorExpr{X: ast.NewIdent("netio"), Sel: ast.NewIdent("Conn")}
+							changed = true
+							stats["widen"]++
+						}
+					}
+				}
+			}
+		}
+	}
 	if r.needVS {
 		changed = true
 		astutil.AddImport(r.fset, f, "verif/vsched")
